@@ -43,6 +43,7 @@ U2 = "1XYZ|1|B|C|-5"
 U3 = "1XYZ|1|A|U|11|||A"
 U4 = "1XYZ|1|A|5MC|12||||6_555"
 U5 = "1XYZ|1|A|U|11"  # same chain, name and number as U3, no insertion code
+U6 = "1XYZ|1|A|U|11|||A|6_555"  # insertion code AND symmetry operator (nine fields)
 LINES = [
     U1 + "\tcWW\t" + U2,
     U2 + "\ttHS\t" + U3,
@@ -73,6 +74,7 @@ LINES = [
     # residues told apart by the insertion code only, in both orders of appearance (appended: earlier indices stay valid)
     U5 + "\tcWW\t" + U3,
     U3 + "\ts53\t" + U5,
+    U6 + "\tcWH\t" + U2,
 ]
 
 
